@@ -25,11 +25,15 @@ b3v_tramp_sysv:
     push r13
     push r14
     push r15
-    sub rsp, 40
+    mov rax, rsp
+    and rsp, -64
+    sub rsp, r8
+    sub rsp, 48
     mov [rsp], rdi
     mov [rsp+8], rsi
     mov [rsp+16], rdx
     mov [rsp+24], rcx
+    mov [rsp+32], rax
     mov rax, rsi
     push qword ptr [rax+72]
     push qword ptr [rax+64]
@@ -68,7 +72,7 @@ b3v_tramp_sysv:
     mov [r10+56], r11
     mov [r10+64], rax
     cld
-    add rsp, 72
+    mov rsp, [rsp+64]
     pop r15
     pop r14
     pop r13
@@ -87,11 +91,15 @@ b3v_tramp_win64:
     push r13
     push r14
     push r15
-    sub rsp, 40
+    mov rax, rsp
+    and rsp, -64
+    sub rsp, r8
+    sub rsp, 48
     mov [rsp], rdi
     mov [rsp+8], rsi
     mov [rsp+16], rdx
     mov [rsp+24], rcx
+    mov [rsp+32], rax
     mov rax, rsi
     sub rsp, 80
     mov r10, [rax+32]
@@ -162,7 +170,7 @@ b3v_tramp_win64:
     movdqu [r10+240], xmm15
     cld
     vzeroupper
-    add rsp, 120
+    mov rsp, [rsp+112]
     pop r15
     pop r14
     pop r13
@@ -175,8 +183,8 @@ b3v_tramp_win64:
 );
 
 extern "C" {
-    fn b3v_tramp_sysv(target: *const (), args: *const u64, sent: *const u64, out: *mut u64);
-    fn b3v_tramp_win64(target: *const (), args: *const u64, sent: *const u64, out: *mut u64);
+    fn b3v_tramp_sysv(target: *const (), args: *const u64, sent: *const u64, out: *mut u64, pad: u64);
+    fn b3v_tramp_win64(target: *const (), args: *const u64, sent: *const u64, out: *mut u64, pad: u64);
 }
 
 macro_rules! ksyms {
@@ -197,6 +205,8 @@ ksyms!(
     win_hm_sse2 = "win_blake3_hash_many_sse2", win_hm_sse41 = "win_blake3_hash_many_sse41", win_hm_avx2 = "win_blake3_hash_many_avx2", win_hm_avx512 = "win_blake3_hash_many_avx512",
     win_cip_sse2 = "win_blake3_compress_in_place_sse2", win_cip_sse41 = "win_blake3_compress_in_place_sse41", win_cip_avx512 = "win_blake3_compress_in_place_avx512",
     win_cx_sse2 = "win_blake3_compress_xof_sse2", win_cx_sse41 = "win_blake3_compress_xof_sse41", win_cx_avx512 = "win_blake3_compress_xof_avx512",
+    ca_d_hm = "ca_blake3_hash_many", ca_d_cip = "ca_blake3_compress_in_place", ca_d_cx = "ca_blake3_compress_xof", ca_d_xm = "ca_blake3_xof_many",
+    ci_d_hm = "ci_blake3_hash_many", ci_d_cip = "ci_blake3_compress_in_place", ci_d_cx = "ci_blake3_compress_xof", ci_d_xm = "ci_blake3_xof_many",
 );
 
 #[derive(Clone, Copy, PartialEq, Debug)]
@@ -266,6 +276,15 @@ pub fn table() -> Vec<KEntry> {
         e("win_compress_xof_sse41", win_cx_sse41, CompressXof, Win64, 1, 0x04),
         e("win_compress_xof_avx512", win_cx_avx512, CompressXof, Win64, 1, 0x60),
     ];
+    // the dispatcher's own entry points (whatever the feature mask of the run selects; zero counts are legal here)
+    v.push(e("ca_dispatch_hash_many", ca_d_hm, HashMany, SysV, 16, 0));
+    v.push(e("ca_dispatch_compress_in_place", ca_d_cip, CompressInPlace, SysV, 1, 0));
+    v.push(e("ca_dispatch_compress_xof", ca_d_cx, CompressXof, SysV, 1, 0));
+    v.push(e("ca_dispatch_xof_many", ca_d_xm, XofMany, SysV, 16, 0));
+    v.push(e("ci_dispatch_hash_many", ci_d_hm, HashMany, SysV, 16, 0));
+    v.push(e("ci_dispatch_compress_in_place", ci_d_cip, CompressInPlace, SysV, 1, 0));
+    v.push(e("ci_dispatch_compress_xof", ci_d_cx, CompressXof, SysV, 1, 0));
+    v.push(e("ci_dispatch_xof_many", ci_d_xm, XofMany, SysV, 16, 0));
     // the crate's own kernels (assembly / C / Rust intrinsics, depending on the build flavour) through Platform
     for (lvl, deg, need) in [(Level::Portable, 1usize, 0), (Level::SSE2, 4, 0x01), (Level::SSE41, 4, 0x04), (Level::AVX2, 8, 0x10), (Level::AVX512, 16, 0x60)] {
         for kind in [HashMany, CompressInPlace, CompressXof, XofMany] {
@@ -276,7 +295,7 @@ pub fn table() -> Vec<KEntry> {
 }
 
 pub fn table_len() -> usize {
-    35 + 20
+    35 + 8 + 20
 }
 
 struct Sent {
@@ -296,9 +315,11 @@ fn sentinels(seed: u64) -> Sent {
 unsafe fn tramp_call(abi: Abi, target: usize, args: &[u64; 10], seed: u64) -> Result<u64, String> {
     let s = sentinels(seed);
     let mut out = [0u64; 32];
+    // the callee may be entered at any of the four 16-byte-aligned stack positions modulo 64
+    let pad = ((seed >> 40) & 3) * 16;
     match abi {
         Abi::SysV => {
-            b3v_tramp_sysv(target as *const (), args.as_ptr(), s.vals.as_ptr(), out.as_mut_ptr());
+            b3v_tramp_sysv(target as *const (), args.as_ptr(), s.vals.as_ptr(), out.as_mut_ptr(), pad);
             let names = ["rbx", "rbp", "r12", "r13", "r14", "r15"];
             for i in 0..6 {
                 if out[i] != s.vals[i] {
@@ -314,7 +335,7 @@ unsafe fn tramp_call(abi: Abi, target: usize, args: &[u64; 10], seed: u64) -> Re
             Ok(out[8])
         }
         Abi::Win64 => {
-            b3v_tramp_win64(target as *const (), args.as_ptr(), s.vals.as_ptr(), out.as_mut_ptr());
+            b3v_tramp_win64(target as *const (), args.as_ptr(), s.vals.as_ptr(), out.as_mut_ptr(), pad);
             let names = ["rbx", "rbp", "rdi", "rsi", "r12", "r13", "r14", "r15"];
             for i in 0..8 {
                 if out[i] != s.vals[i] {
@@ -503,7 +524,10 @@ pub fn do_kernel(sh: &Arc<Shared>, k: usize, a: &KArgs) -> OpResult {
             check_canaries(&[("cv", &key), ("block", &block), ("out", &out)])?;
         }
         KKind::XofMany => {
-            let n = a.n.clamp(1, 33);
+            let n = if e.name.contains("dispatch") { a.n.min(33) } else { a.n.clamp(1, 33) };
+            if n == 0 {
+                sh.probe("kernel_dispatch_xof_many_zero_blocks");
+            }
             if (a.counter as u128) + (n as u128) >= (1u128 << 64) {
                 return Err(OpErr::Skip);
             }
